@@ -145,8 +145,12 @@ def _bind_params(fn, params, args, kwargs, env, funcs, name):
     """bind actuals to the formals `params` (self already removed) of the FunctionDef fn: defaults, *args, keyword-only, **kwargs"""
     allp = [a.arg for a in fn.args.args]
     defaults = fn.args.defaults
+    # Python evaluates a default once, when the function is defined: the value (a list, a dict ...) is shared by all calls
+    cache = funcs.setdefault('__default_values__', {}) if isinstance(funcs, dict) else {}
     for i, d in enumerate(defaults):
-        env[allp[len(allp) - len(defaults) + i]] = ev(d, {}, funcs)
+        if id(d) not in cache:
+            cache[id(d)] = (d, ev(d, {}, funcs))
+        env[allp[len(allp) - len(defaults) + i]] = cache[id(d)][1]
     for p, a in zip(params, args):
         env[p] = a
     extra = list(args[len(params):])
@@ -157,7 +161,9 @@ def _bind_params(fn, params, args, kwargs, env, funcs, name):
     kwonly = [a.arg for a in fn.args.kwonlyargs]
     for a, d in zip(fn.args.kwonlyargs, fn.args.kw_defaults):
         if d is not None:
-            env[a.arg] = ev(d, {}, funcs)
+            if id(d) not in cache:
+                cache[id(d)] = (d, ev(d, {}, funcs))
+            env[a.arg] = cache[id(d)][1]
     rest = {}
     for k, v in kwargs.items():
         if k in params or k in kwonly:
@@ -451,6 +457,8 @@ def ev(n, env, funcs=None):
             if isinstance(v0, PyStub):
                 return bool(set(getattr(v0, 'isa', ())) & names)
             builtin = {'bool': bool, 'int': int, 'float': float, 'str': str, 'list': list, 'tuple': tuple, 'dict': dict, 'set': set, 'complex': complex}
+            if set(getattr(type(v0), 'isa', ())) & names:      # numpy scalar models name their numpy classes
+                return True
             return any(isinstance(v0, builtin[nm_]) for nm_ in names if nm_ in builtin)        # subclasses included, as in Python
         args = []
         for a_ in n.args:
@@ -582,7 +590,11 @@ def ev(n, env, funcs=None):
         if isinstance(f, ast.Name) and fname == 'divmod' and len(args) == 2:
             return divmod(*args)
         kw_ = _kw(n, env, funcs)
-        if funcs and fname in funcs and fname not in ('__globals__', '__name__', '__resolve__'):
+        if funcs and isinstance(f, ast.Name) and fname in funcs.get('__defaults__', ()) and '__resolve__' in funcs:
+            target = funcs['__resolve__'](n, fname)
+            if target is not None:
+                return target(*args, **kw_)
+        if funcs and fname in funcs and fname not in ('__globals__', '__name__', '__resolve__', '__defaults__', '__default_values__'):
             return funcs[fname](*args, **kw_)
         if funcs and '__resolve__' in funcs:
             target = funcs['__resolve__'](n, fname)
@@ -590,6 +602,51 @@ def ev(n, env, funcs=None):
                 return target(*args, **kw_)
         if fname in env and callable(env[fname]):
             return env[fname](*args, **kw_)
+        if isinstance(f, ast.Name):
+            # remaining builtins with their Python meaning on the interpreter's values
+            if fname == 'id' and len(args) == 1:
+                return id(args[0])
+            if fname == 'hash' and len(args) == 1 and not isinstance(args[0], (Obj, PyStub)):
+                return hash(args[0])
+            if fname == 'repr' and len(args) == 1:
+                a0 = args[0]
+                if isinstance(a0, Obj):
+                    return a0.call('__repr__') if '__repr__' in a0.methods else '<%s object>' % (sorted(a0.isa)[0] if a0.isa else 'record')
+                if isinstance(a0, PyStub):
+                    return repr(a0) if type(a0).__repr__ is not object.__repr__ else '<%s object>' % type(a0).__name__
+                return repr(a0)
+            if fname in ('list', 'tuple', 'set', 'frozenset') and len(args) <= 1 and not kw_:
+                ctor = {'list': list, 'tuple': tuple, 'set': set, 'frozenset': frozenset}[fname]
+                if not args:
+                    return ctor()
+                a0 = args[0]
+                if isinstance(a0, Obj):
+                    if '__iter__' in a0.methods:
+                        return ctor(a0.call('__iter__'))
+                    if '__getitem__' in a0.methods and '__len__' in a0.methods:
+                        return ctor([a0.call('__getitem__', i_) for i_ in range(a0.call('__len__'))])
+                elif isinstance(a0, (list, tuple, set, frozenset, range, str, dict)) or hasattr(a0, '__iter__'):
+                    return ctor(a0)
+            if fname == 'callable' and len(args) == 1:
+                return callable(args[0]) or (isinstance(args[0], Obj) and '__call__' in args[0].methods)
+            if fname == 'hasattr' and len(args) == 2 and isinstance(args[1], str):
+                o_ = args[0]
+                if isinstance(o_, Obj):
+                    return args[1] in o_.fields or args[1] in o_.methods
+                return hasattr(o_, args[1])
+            if fname in ('ord', 'chr', 'bin', 'hex', 'oct', 'pow') and all(isinstance(a_, (int, float, str)) for a_ in args):
+                return {'ord': ord, 'chr': chr, 'bin': bin, 'hex': hex, 'oct': oct, 'pow': pow}[fname](*args)
+            if fname == 'print':
+                return None
+            if fname == 'iter' and len(args) == 1 and (isinstance(args[0], (list, tuple, set, frozenset, range, str, dict)) or hasattr(args[0], '__iter__')):
+                return iter(args[0])
+            if fname == 'next' and 1 <= len(args) <= 2 and hasattr(args[0], '__next__'):
+                try:
+                    return next(args[0])
+                except StopIteration:
+                    if len(args) == 2:
+                        return args[1]
+                    raise Raised('StopIteration', '')
         raise Unsupported('call %s' % _unparse(n))
     if isinstance(n, ast.Compare):
         l = ev(n.left, env, funcs)
